@@ -25,20 +25,24 @@ PROPERTY = 'C16'
 LEVEL = 'exploration'
 EXHAUSTIVE = True
 
-RULE = ('8 base workflows (direct: one component consuming a data file inside its arguments plus a :copy file; one: '
+RULE = ('10 base workflows (direct: one component consuming a data file inside its arguments plus a :copy file; one: '
         'consumer of a file of one producer; chain: producer -> producer -> consumer; two: consumer of two producers '
         'named A-B and B; dir / dircopy: consumer of the working directory of a producer inside / outside its '
-        'arguments; k8s: direct with a container image; ext: direct with an absolute path outside the instance) x '
+        'arguments; k8s: direct with a container image; ext: direct with an absolute path outside the instance; bin / '
+        'binone: direct / one with pathless executables that are scripts shipped in bin/ and found through an '
+        'environment PATH=$INSTANCE_DIR/bin:$PATH, validated with checkExecutables=True so that they are resolved) x '
         'every single-aspect variation of the tables in verif/gen/c16_worlds.py::variations (relevant: executable (4), '
         'every literal part of the arguments changed/extended/dropped, token appended/prepended, two references '
         'exchanged, content of every consumed file (first/last byte flipped, byte appended, emptied, 5000 bytes, last '
-        'of 5000 bytes), reference method, backend x image (kubernetes/lsf/docker/local x 2 images), consumed file '
+        'of 5000 bytes; long files of 4096/4097/65536/65537/204800 bytes [thorough also 8192/65535/70000/131073/'
+        '1048577] changed at the last byte, at byte 65536 and in the middle, each compared with the unchanged file of '
+        'the same size), reference method, backend x image (kubernetes/lsf/docker/local x 2 images), consumed file '
         'added/removed, value of a used variable; producers: executable / arguments / image / input changed with the '
         'produced files unchanged, produced file content changed, produced file renamed; irrelevant: 10 component '
         'names, 7 producer names, stage index (+1, same stage with relative references, all stages +1), stage names, '
         'absolute/relative spelling, every permutation of the reference list, unused variables (component/global/'
         'stage), 5 resource requests, instance directory (2 depths, package name, instance name, no timestamp, '
-        'reloaded from the instance, moved then reloaded), file times (2001/2033), unrelated component / data file, '
+        'reloaded from the instance, moved then reloaded, executables checked/resolved or not), file times (2001/2033), unrelated component / data file, '
         'same content under another name / under input / at another absolute path, value spelled through a '
         'variable; missing: every consumed file and every upstream file removed) + the ambiguity alphabet '
         '(executable x arguments over concatenations of {a, executable}; ("ab","c")/("a","bc"); executable x file list '
@@ -67,15 +71,17 @@ ASSUMPTIONS = [
     'a component whose own inputs are all present but whose upstream producer misses an input is expected to keep its '
     'strong hash (the statement only speaks about the contents the component itself refers to)',
     'not in the alphabet (grey): literal arguments that spell a replaced reference ("file:<md5>:ref"), references to '
-    'directories that no component produces, environment variables, executables given as paths, replicas, custom '
+    'directories that no component produces, environments that differ between the compared components (the one '
+    'environment of the bin bases is constant), the content of an executable script, executables written as paths, replicas, custom '
     'embedding functions, blanks inside file names, copy/link of a file under a changed file name',
     '"time" is realised as file modification times (2001 / 2033) and the creation time in the instance name',
     'two different contents with the same hash (md5 collisions) are not in the alphabet',
 ]
 
 IRRELEVANT_GROUPS = {'name', 'pname', 'stage', 'stagename', 'spelling', 'order', 'unused', 'resources', 'location', 'time',
-                     'neighbours', 'filename', 'indirection'}
-RELEVANT_GROUPS = {'exe', 'args', 'content', 'method', 'usedvar', 'refs'}
+                     'neighbours', 'filename', 'indirection', 'checkexe'}
+RELEVANT_GROUPS = {'exe', 'args', 'content', 'bigcontent', 'method', 'usedvar', 'refs'}
+NO_SECOND_LEVEL = {'bigcontent'}     # long files are only varied alone (cost)
 
 import verif.core.runner as _runner
 _runner.Collector.MAX_FAIL = max(_runner.Collector.MAX_FAIL, 5000)
@@ -85,6 +91,7 @@ _runner.Collector.MAX_FAIL = max(_runner.Collector.MAX_FAIL, 5000)
 def world_table(thorough, seed):
     """-> list of entries {'wid', 'parents': [wid], 'base', 'groups': [..], 'label', 'world'} in deterministic order."""
     table = []
+    G.THOROUGH = bool(thorough)
     for bn, bw in G.bases().items():
         table.append({'wid': bn, 'parents': [], 'base': bn, 'groups': [], 'label': 'base', 'world': bw})
         singles = []
@@ -96,8 +103,10 @@ def world_table(thorough, seed):
         # second level: a variation applied to a variant (pairs of different aspect families)
         k = 0
         for g1, l1, w1 in singles:
+            if g1 in NO_SECOND_LEVEL:
+                continue
             for g2, l2, w2 in (v[:3] for v in G.variations(bn, w1)):
-                if g2 == g1 or (g2, l2) <= (g1, l1):
+                if g2 == g1 or (g2, l2) <= (g1, l1) or g2 in NO_SECOND_LEVEL:
                     continue
                 if ('%s|%s' % (bn, l2)) not in _single_ids(bn, singles):
                     continue   # a variation that only exists on the variant (keeps both parents well defined)
